@@ -486,6 +486,50 @@ func init() {
 		},
 	})
 	eng.Register(&eng.Scenario{
+		Name: "keyedref-release-race", Props: []string{"C06"}, MustFinish: true, ObsNames: stdObs,
+		Doc:   "KeyedRefCount: reference r1 to key a exists; T1 = r1.Release()  ||  T2 = RemoveKey(a); r2 = AddKeyRef(a); check; r2.Release(): while r2 is held key a must be present whatever the stale Release does; at the end no key remains",
+		Quick: eng.Bounds{PB: 2}, Thorough: eng.Bounds{PB: 3, Cap: 6000000},
+		Body: func() {
+			k := keyed.NewKeyedRefCount(func(key string) (keyed.Routine, int) { return scriptRoutine(iUntilCancelled), 1 })
+			k.SetContext(bg, false)
+			r1, _, _ := k.AddKeyRef("a")
+			extra := vsched.Choose(2) == 1
+			var r0 *keyed.KeyedRef[string, int]
+			if extra {
+				r0, _, _ = k.AddKeyRef("a")
+			}
+			g := &vsched.Gate{}
+			T("T1", func() { r1.Release() })
+			T("T2", func() {
+				k.RemoveKey("a")
+				r2, _, _ := k.AddKeyRef("a")
+				vsched.Observe(oAcq, 2, 0, 0)
+				for i := 0; i < 2; i++ {
+					if _, ok := k.GetKey("a"); !ok {
+						fail("C06.ref-held-key-missing", "key a is not present although an unreleased reference obtained after RemoveKey is held")
+					}
+					vsched.Point()
+				}
+				g.Wait() // main lets the stale Release finish first, whatever it does
+				vsched.Observe(oRel, 2, 0, 0)
+				r2.Release()
+			})
+			vsched.Settle()
+			if _, ok := k.GetKey("a"); !ok {
+				fail("C06.ref-held-key-missing", "key a disappeared while an unreleased reference to it is held")
+			}
+			g.Open()
+			vsched.Settle()
+			if extra {
+				r0.Release() // released by RemoveKey already: must count as nothing
+			}
+			if ks := k.GetKeys(); len(ks) != 0 {
+				fail("C06.keyset", "keys %v remain although every reference was released", ks)
+			}
+			k.ClearContext()
+		},
+	})
+	eng.Register(&eng.Scenario{
 		Name: "keyed-concurrent", Props: []string{"C06", "C07"}, MustFinish: true, ObsNames: stdObs,
 		Doc:   "Keyed, two API threads: T1 = SetKey(a,true); RestartRoutine(a); RemoveKey(a)  ||  T2 = SetKey(b,true); GetKeysWithData; SyncKeys([b],true); a is removed by T1 or by T2's SyncKeys, b stays: final key set {b}; per-key overlap oracle",
 		Quick: eng.Bounds{PB: 2}, Thorough: eng.Bounds{PB: 3},
